@@ -9,6 +9,10 @@ open Gomjml.Tree Gomjml.Passes Gomjml.Amp
 theorem C18_tree_sound (ts : List XTok) (n : Node) (hc : noComment ts = true) (h : parseDoc ts = some n) :
     ∃ rest, ts = n.toks ++ rest := parseDoc_sound ts n hc h
 
+/-- … and conversely nothing is added: the serialisation of any tree is read back as exactly that tree (so the builder is a
+    bijection between well-nested token streams and trees) -/
+theorem C18_tree_complete (n : Node) (rest : List XTok) : parseDoc (n.toks ++ rest) = some n := parseDoc_complete n rest
+
 /-- strict documents pass the entity pre-pass unchanged (no `&` at all: nothing to rewrite) … -/
 theorem C18_entities_identity (s : List B) (h : ∀ b ∈ s, b ≠ amp) : entities s = s := entities_noamp s h
 /-- … the ampersand pass rewrites nothing outside quoted attribute values … -/
@@ -17,6 +21,30 @@ theorem C18_amp_outside_quotes (E : Ent) (s : List B) (inTag : Bool) (h : ∀ b 
 /-- … and nothing at all without an ampersand -/
 theorem C18_amp_identity (E : Ent) (s : List B) (inTag : Bool) (q : B) (h : ∀ b ∈ s, b ≠ amp) : esc E inTag q s = s :=
   esc_noamp E s inTag q h
+
+/-- **a bare ampersand in an attribute value parses like `&amp;`**: inside a quoted attribute value, at a place where no
+    entity follows, the pre-pass writes the same bytes for `&…` as for `&amp;…` (and leaves `&amp;` as it is) — for the real
+    entity table (regenerated), either kind of quote, whatever follows -/
+theorem C18_bare_amp_like_escaped (inTag : Bool) (q : B) (hq : q = dq ∨ q = sq) (rest : List B)
+    (h : entityAhead entTable rest = false) :
+    esc entTable inTag q (amp :: rest) = esc entTable inTag q (ampEsc ++ rest) ∧
+    esc entTable inTag q (ampEsc ++ rest) = ampEsc ++ esc entTable inTag q rest :=
+  ⟨esc_bare_amp entTable (by decide) inTag q hq rest h, esc_amp_entity entTable (by decide) inTag q hq rest⟩
+
+/-- non-vacuity: `href="a?x=1&y=2"` and `href="a?x=1&amp;y=2"` come out of the pre-pass as the same bytes -/
+example : escapeAmp [60, 97, 32, 104, 114, 101, 102, 61, 34, 97, 63, 120, 61, 49, 38, 121, 61, 50, 34, 62] = escapeAmp [60, 97, 32, 104, 114, 101, 102, 61, 34, 97, 63, 120, 61, 49, 38, 97, 109, 112, 59, 121, 61, 50, 34, 62] := by decide
+
+/-- **HTML-only named entities parse like their characters**: each replacement step, at an occurrence of its entity, writes
+    the replacement and continues behind it … -/
+theorem C18_named_entity_replaced (old new rest : List B) (h : old ≠ []) :
+    replaceAll old new (old ++ rest) = new ++ replaceAll old new rest := replaceAll_prefix old new rest h
+
+/-- … and (regenerated table) the replacements are exactly the UTF-8 bytes of the characters the entities name: © (C2 A9), ® (C2 AE),
+    ™ (E2 84 A2), the no-break space (C2 A0, also for its two numeric spellings), – — … (E2 80 93 / 94 / A6); none contains a byte that means anything to XML -/
+theorem C18_named_entities_are_their_characters :
+    Gomjml.Gen.Parser.entityStepsB.map (fun st => st.2) =
+      [[194, 169], [194, 174], [226, 132, 162], [194, 160], [194, 160], [194, 160], [226, 128, 147], [226, 128, 148], [226, 128, 166]] ∧
+    ∀ st ∈ Gomjml.Gen.Parser.entityStepsB, ∀ b ∈ st.2, b ≠ amp ∧ b ≠ lt ∧ b ≠ gt := by decide
 
 /-- raw HTML inside mj-text is equivalent to the same content wrapped in CDATA: the wrapping round-trips every byte string,
     `]]>` included -/
